@@ -258,9 +258,13 @@ def calibrate(tier):
         if code == 0:
             with open(os.path.join(gd, "f.llw")) as fh:
                 fmt = fh.read()
-            code2, _ = run_llw(["-c", "-f", "f.llw"], gd)
+            # "formatted" is a fact about the text (formatting it again leaves it as it is), not about
+            # what the tool under test says in check mode
+            run_llw(["-f", "f.llw"], gd)
+            with open(os.path.join(gd, "f.llw")) as fh:
+                again = fh.read()
             _, err3 = run_llw(["-c", "-s", "f.llw"], gd)
-            if code2 != 0:
+            if again != fmt:
                 notes["format_not_idempotent"].append(name)
                 fmt = None
             elif observed_class(err3) != cls:
